@@ -87,6 +87,11 @@ def check_program(arg):
         i = next(k for k in range(min(len(a), len(b))) if a[k] != b[k])
         fails.append(("tree_differs", "tree(F(P)) != tree(free(P)) near %r vs %r" % (a[max(0, i - 50):i + 40],
                                                                                       b[max(0, i - 50):i + 40]), rep))
+    elif fp.renumber_blocks(str(o.tree)) != fp.renumber_blocks(str(ref.tree)):
+        la, lb = fp.renumber_blocks(str(o.tree)).split("\n"), fp.renumber_blocks(str(ref.tree)).split("\n")
+        d = [(x, y) for x, y in zip(la, lb) if x != y][:2]
+        fails.append(("text_differs", "the fixed and the free rendering regenerate different text (labels, construct names "
+                      "are carried by the items): %r" % (d,), rep))
     # the detection must not depend on where the source comes from, nor on its length: the same texts (also
     # with a long comment header, and the fixed one repeated to several kilobytes) through a file
     import os, shutil, tempfile
